@@ -66,21 +66,29 @@ theorem lowerRange_eq {h count : Nat} (hh : h + 1 < two64) :
   · rfl
   · next hn => rw [sub64_of_le (by omega)]
 
+theorem byHash_none (H : Nat) : byHash H none = none := rfl
+
+theorem byHash_some {H h : Nat} (h1 : 1 ≤ h) (h2 : h ≤ H) : byHash H (some h) = some h := by
+  unfold byHash; simp [byHeight_some h1 h2]
+
+/-- a hash the node does not hold: no momentums, an empty list of hashes -/
+theorem hashesFromHash_none (H amount : Nat) : hashesFromHash H none amount = .ok [] := rfl
+
 /-- `GetBlockHashesFromHash` on a held momentum at height `h`: exactly the heights
-    max(1, h+1-count) .. h, ascending. -/
-theorem hashesFromHash_some {H h count : Nat} (h1 : 1 ≤ h) (h2 : h ≤ H) (hH : H ≤ makesliceMax)
-    (hc : count < two64) :
+    max(1, h+1-count) .. h, ascending. Premises: `h + 1` does not wrap around (the chain has fewer than
+    2^64 − 1 momentums) and the count is one `make` accepts (every capped amount is). -/
+theorem hashesFromHash_some {H h count : Nat} (h1 : 1 ≤ h) (h2 : h ≤ H) (hH : H + 1 < two64)
+    (hc : count ≤ makesliceMax) :
     hashesFromHash H (some h) count =
       .ok (List.range' (if h + 1 ≤ count then 1 else h + 1 - count)
                        (h + 1 - (if h + 1 ≤ count then 1 else h + 1 - count))) := by
-  have hh : h + 1 < two64 := by
-    have : makesliceMax + 1 < two64 := by unfold makesliceMax two64; omega
-    omega
+  have hh : h + 1 < two64 := by omega
   unfold hashesFromHash
-  simp only [lowerRange_eq hh]
+  simp only [byHash_some h1 h2, lowerRange_eq hh]
   generalize hf : (if h + 1 ≤ count then 1 else h + 1 - count) = frm
   have hf1 : 1 ≤ frm := by subst hf; split <;> omega
   have hf2 : frm ≤ h + 1 := by subst hf; split <;> omega
+  have hf3 : h + 1 - frm ≤ count := by subst hf; split <;> omega
   unfold momentumsByRange
   have hs : sub64 (h + 1) frm = h + 1 - frm := sub64_of_le hf2
   have hle : ¬ (sub64 (h + 1) frm > makesliceMax) := by rw [hs]; omega
@@ -89,7 +97,7 @@ theorem hashesFromHash_some {H h count : Nat} (h1 : 1 ≤ h) (h2 : h ≤ H) (hH 
   simp
 
 theorem hashesFromHash_some_length {H h count : Nat} {l : List Nat} (h1 : 1 ≤ h) (h2 : h ≤ H)
-    (hH : H ≤ makesliceMax) (hc : count < two64)
+    (hH : H + 1 < two64) (hc : count ≤ makesliceMax)
     (hl : hashesFromHash H (some h) count = .ok l) : l.length = min h count := by
   rw [hashesFromHash_some h1 h2 hH hc] at hl
   cases hl
@@ -106,11 +114,15 @@ theorem lowerRange_width (h count : Nat) : (lowerRange h count).2 - (lowerRange 
 /-- without any premise on H: a reply produced from an amount never has more entries than the amount. -/
 theorem hashesFromHash_length_le (H : Nat) (hash : Option Nat) (count : Nat) (l : List Nat)
     (hl : hashesFromHash H hash count = .ok l) : l.length ≤ count := by
-  cases hash with
-  | none => simp [hashesFromHash] at hl
+  unfold hashesFromHash at hl
+  cases hb : byHash H hash with
+  | none =>
+    simp only [hb] at hl
+    cases hl
+    exact Nat.zero_le _
   | some h =>
     have hw := lowerRange_width h count
-    simp only [hashesFromHash, momentumsByRange] at hl
+    simp only [hb, momentumsByRange] at hl
     generalize (lowerRange h count).1 = frm at hl hw
     generalize (lowerRange h count).2 = to at hl hw
     by_cases hp : sub64 to frm > makesliceMax
@@ -141,16 +153,53 @@ theorem gatherBlocks_length (l : List (Option Nat)) (acc : List Nat) (h : acc.le
         simp at hn ⊢
         omega
 
-theorem fromNumberLast_spec (H n a1 : Nat) (h1 : 1 ≤ H) (ha : a1 < two64) :
-    1 ≤ (fromNumberLast H n a1).1 ∧ (fromNumberLast H n a1).1 ≤ H ∧ (fromNumberLast H n a1).2 < two64 := by
-  unfold fromNumberLast
-  split
-  · next l hb =>
-    have := byHeight_eq_some hb
-    simp only
-    omega
-  · simp only
-    exact ⟨h1, Nat.le_refl _, u64_lt _⟩
+theorem currentBlock_some {H : Nat} (h1 : 1 ≤ H) : currentBlock H = some H :=
+  byHeight_some h1 (Nat.le_refl _)
+
+/-- whatever the chain and the request: the amount handed to `GetBlockHashesFromHash` is at most the capped
+    amount (the recomputation in the `last == nil` branch only ever reduces it) -/
+theorem fromNumberLast_amount_le {H n a1 : Nat} {p : Nat × Nat} (hp : fromNumberLast H n a1 = some p) :
+    p.2 ≤ a1 := by
+  unfold fromNumberLast at hp
+  split at hp
+  · cases hp; exact Nat.le_refl _
+  · split at hp
+    · cases hp
+    · cases hp
+      simp only
+      split <;> omega
+
+/-- on a node that holds its genesis momentum `last` is never nil, it is a held momentum, and the amount is
+    at most the capped one -/
+theorem fromNumberLast_spec (H n a1 : Nat) (h1 : 1 ≤ H) :
+    ∃ p, fromNumberLast H n a1 = some p ∧ 1 ≤ p.1 ∧ p.1 ≤ H ∧ p.2 ≤ a1 := by
+  cases hp : fromNumberLast H n a1 with
+  | none =>
+    unfold fromNumberLast at hp
+    split at hp
+    · cases hp
+    · rw [currentBlock_some h1] at hp
+      cases hp
+  | some p =>
+    refine ⟨p, rfl, ?_, ?_, fromNumberLast_amount_le hp⟩
+    · unfold fromNumberLast at hp
+      split at hp
+      · next l hb =>
+        cases hp
+        have := byHeight_eq_some hb
+        simp only
+        omega
+      · rw [currentBlock_some h1] at hp
+        cases hp; exact h1
+    · unfold fromNumberLast at hp
+      split at hp
+      · next l hb =>
+        cases hp
+        have := byHeight_eq_some hb
+        simp only
+        omega
+      · rw [currentBlock_some h1] at hp
+        cases hp; exact Nat.le_refl _
 
 theorem onGetHashes_ne_blocks (H : Nat) (hash : Option Nat) (a : Nat) (l : List Nat) :
     onGetHashes H hash a ≠ .blocks l := by
@@ -159,11 +208,11 @@ theorem onGetHashes_ne_blocks (H : Nat) (hash : Option Nat) (a : Nat) (l : List 
 theorem onGetHashesFromNumber_ne_blocks (H n a : Nat) (l : List Nat) :
     onGetHashesFromNumber H n a ≠ .blocks l := by
   unfold onGetHashesFromNumber
-  simp only
-  generalize fromNumberLast H n (capHash a) = p
   split
   · simp
-  · split <;> simp
+  · split
+    · simp
+    · split <;> simp
 
 theorem onGetBlocks_ne_hashes (H : Nat) (hs : List (Option Nat)) (bad : Bool) (l : List Nat) :
     onGetBlocks H hs bad ≠ .hashes l := by
